@@ -85,9 +85,6 @@ int main(void)
 #else
     VWITNESS("every valuation of this chunk has an empty execution space and was counted as 0 tasks");
 #endif
-#ifdef EXPECT_REMOTE
-    if (n_remote >= 1) VWITNESS("some instance is placed on another rank and is not counted");
-#endif
 #endif
     return 0;
 }
